@@ -20,6 +20,7 @@ type c20Op struct {
 	size    int // append: payload size
 	idx     int // after: index (-1,0,1,2) or -2 = "last"
 	n       int // setmax
+	during  bool // after: append to the sibling stream while the iterator is being consumed
 	display string
 }
 
@@ -40,6 +41,10 @@ func c20Alphabet() []c20Op {
 				}
 				ops = append(ops, c20Op{kind: "after", s: s, t: t, idx: i, display: fmt.Sprintf("After(s%d,t%d,%s)", s, t, name)})
 			}
+		}
+		for t := 0; t < 2; t++ {
+			// a replay that is still being consumed while another stream's append forces a purge
+			ops = append(ops, c20Op{kind: "after", s: s, t: t, idx: -1, during: true, display: fmt.Sprintf("After(s%d,t%d,-1)+Append(s%d,t%d,%dB) after the first item", s, t, s, 1-t, c20Limit)})
 		}
 		ops = append(ops, c20Op{kind: "closed", s: s, display: fmt.Sprintf("SessionClosed(s%d)", s)})
 	}
@@ -128,6 +133,10 @@ func c20Run(ops []c20Op, hist []int) verifx.SearchResult {
 			var gerr error
 			n := 0
 			partial := false
+			firstBefore := -1
+			if dl0 := st.store[sid(op.s)][tid(op.t)]; dl0 != nil {
+				firstBefore = dl0.first
+			}
 			func() {
 				defer func() { panicked = recover() }()
 				for d, err := range st.After(ctx, sid(op.s), tid(op.t), idx) {
@@ -137,7 +146,17 @@ func c20Run(ops []c20Op, hist []int) verifx.SearchResult {
 						partial = n > 1
 						break
 					}
-					got = append(got, d)
+					got = append(got, append([]byte{}, d...))
+					if op.during && n == 1 {
+						k2 := [2]int{op.s, 1 - op.t}
+						p := c20Payload(op.s, 1-op.t, len(m.appended[k2]), c20Limit)
+						if err := st.Append(ctx, sid(op.s), tid(1-op.t), p); err != nil {
+							panic(err)
+						}
+						m.open[k2] = true
+						m.appended[k2] = append(m.appended[k2], p)
+						m.lastSize = c20Limit
+					}
 				}
 			}()
 			if panicked != nil {
@@ -147,7 +166,7 @@ func c20Run(ops []c20Op, hist []int) verifx.SearchResult {
 				return bad("after-partial-then-error", "%s yielded %d items and then error %v", op.display, n-1, gerr)
 			}
 			want := [][]byte{}
-			if idx+1 < len(m.appended[k]) {
+			if idx+1 < len(m.appended[k]) && idx+1 >= 0 {
 				want = m.appended[k][idx+1:]
 			}
 			switch {
@@ -162,9 +181,8 @@ func c20Run(ops []c20Op, hist []int) verifx.SearchResult {
 				}
 				obs = "after:purged"
 				// admissible only if something after idx really is gone (checked against private state below)
-				dl := st.store[sid(op.s)][tid(op.t)]
-				if dl == nil || idx+1 >= dl.first {
-					return bad("after-spurious-purged", "%s reported ErrEventsPurged although every item after index %d is retained (first=%v)", op.display, idx, dl)
+				if firstBefore < 0 || idx+1 >= firstBefore {
+					return bad("after-spurious-purged", "%s reported ErrEventsPurged although every item after index %d was retained (first=%d)", op.display, idx, firstBefore)
 				}
 			default:
 				if len(got) != len(want) {
